@@ -187,6 +187,7 @@ pub trait Farm:
     ) -> DoubleMultiPayment<Self::Api> {
         let caller = self.blockchain().get_caller();
         let orig_caller = self.get_orig_caller_from_opt(&caller, opt_orig_caller);
+        self.validate_contract_state(self.state().get(), &self.farm_token().get_token_id());
 
         self.migrate_old_farm_positions(&orig_caller);
         let boosted_rewards = self.claim_only_boosted_payment(&orig_caller);
